@@ -205,10 +205,10 @@ PROPS = {
         assumptions=["fewer than 32 undrained events"],
     ),
     "C03": dict(
-        theorems=["HC.C03.accept_commits", "HC.C03.accepted_events", "HC.C03.honest_block_accepted", "HC.C03.honest_first_upgrade_accepted", "HC.C03.sync_first_contact", "HC.C03.sync_invariant", "HC.C03.sync_progress", "HC.C03.replica_converges", "HC.C03.replica_grows", "HC.C03.replica_reopens", "HC.C03.cleared_block_no_proof", "HC.C03.created_block_value", "HC.C03.honest_block_with_upgrade_accepted", "HC.C03.block_with_upgrade_applied", "HC.C03.honest_blockgrowth_is_writers", "HC.C03.honest_new_block_with_upgrade_accepted", "HC.C03.next_block_with_upgrade_applied", "HC.C03.honest_growth_is_writers", "HC.C03.honest_hash_is_writers", "HC.C03.honest_block_is_writers", "HC.C03.missing_nodes_spec", "HC.C03.writer_answers", "HC.C03.block_accepted"],
+        theorems=["HC.C03.accept_commits", "HC.C03.accepted_events", "HC.C03.honest_block_accepted", "HC.C03.honest_first_upgrade_accepted", "HC.C03.sync_first_contact", "HC.C03.sync_invariant", "HC.C03.sync_progress", "HC.C03.replica_converges", "HC.C03.replica_grows", "HC.C03.replica_reopens", "HC.C03.cleared_block_no_proof", "HC.C03.created_block_value", "HC.C03.honest_block_with_upgrade_accepted", "HC.C03.block_with_upgrade_applied", "HC.C03.honest_blockgrowth_is_writers", "HC.C03.honest_new_block_with_upgrade_accepted", "HC.C03.new_block_with_upgrade_applied", "HC.C03.next_block_with_upgrade_applied", "HC.C03.honest_growth_is_writers", "HC.C03.honest_hash_is_writers", "HC.C03.honest_block_is_writers", "HC.C03.missing_nodes_spec", "HC.C03.writer_answers", "HC.C03.block_accepted"],
         bridge_modules=["HC.Bridge.Oplog", "HC.Bridge.Stores", "HC.Bridge.Order"], bridging=OPLOG_BRIDGE + STORES_BRIDGE + ORDER_BRIDGE,
         runs=_c03_runs,
-        partial="proved: honest block exchange (the replica's missing_nodes count, the writer's create_valueless_proof, the block bytes) is accepted by verify_proof on every sparse replica of the log, for every log/writer state/replica state/index; the first-contact upgrade (the writer's answer to 'upgrade from 0 to your length' = its reference roots + signature, accepted by a replica that knows nothing yet, which adopts exactly the writer's roots, length and fork: honest_first_upgrade_accepted); the exchange is closed under its own effects at tree level (sync_first_contact, sync_invariant, sync_progress: after first contact and any number of block exchanges in any order, each answered by create_valueless_proof, checked by verify_proof and committed, the replica is again a sparse replica at the writer's length with the writer's roots and fork, and the exchange for every block succeeds again - it never gets stuck); at CORE level (replica_converges): from a replica that knows nothing, the writer's upgrade answer and then its block answers for any list of indices in any order with repetitions are each applied by verify_and_apply_proof with answer true - verification, byte offset under the replica's own sparse tree, data write, oplog entry, bitfield, tree commit, periodic flush - and afterwards the replica reports the writer's length and byte length, every fetched block reads back byte-identical to the writer's block and every other index reads as not held (invariant Replica.RepR with a closed sparse tree); the same with GROWTH ROUNDS (replica_grows): after first contact at any length the replica plays any list of acts - upgrade to the writer's current, larger length (the answer is the greedy decomposition of [m,n) into aligned blocks; inside the first new root verify_upgrade's grow loop merges upwards like a binary counter) fetch block i below its current length, and ask for the hash of any full tree node inside its current length, in any order - every act is answered true and at the end it reports the last length and byte length and serves exactly the fetched blocks byte-identical; once verified and commitable a proof is always applied, with exactly the prescribed events. ACROSS RESTARTS, from creation (replica_reopens): the replica is created by Hypercore::new over empty stores from the public key alone, and among the acts the stores may be closed and reopened (Hypercore::new without key pair) any number of times - every reopen succeeds without writing, replays the oplog entries since the last flush to exactly the live header, tree and bitfield (ghost invariant ReplicaReopen.PersistR next to RepRAt; truncate finds the upgraded roots among the entry's nodes and the store), and the final statement is the same. The proofs used are the writer's own answers (honest_block_is_writers, honest_hash_is_writers, honest_growth_is_writers, honest_blockgrowth_is_writers). Not proved (validated by the run): proofs with seek sections, upgrades to less than the writer's length (additional nodes), the byte offset under merged roots at core level for block+upgrade in one proof where the block lies in the NEW part beyond the first one (next_block_with_upgrade_applied proves the whole application at core level for the NEXT block - block m on a replica of length m, the live-download step, whose byte offset is the replica's byte length; honest_new_block_with_upgrade_accepted proves acceptance by verify_proof for every block of the new part: the block's subtree root is one node of the honest position list, left out of the upgrade section, recomputed by the block climb and taken from verify_upgrade's extra slot exactly when its turn comes; for a block below the replica's length together with an upgrade, honest_block_with_upgrade_accepted proves acceptance by verify_proof and block_with_upgrade_applied the whole application at core level: byte offset computed under the merged roots, data write, the single entry carrying nodes+upgrade+bitfield, commit, replay of that entry on reopen, the invariants again) - a block the writer does not hold (cleared) yields no proof, never a wrong one, and a created block proof carries exactly what get returns (cleared_block_no_proof, created_block_value) - every honest proof in every request order, partial upgrades, seeks, hash sweeps, replica reopen, cleared blocks must be accepted by crate and model and the replica must converge",
+        partial="proved: honest block exchange (the replica's missing_nodes count, the writer's create_valueless_proof, the block bytes) is accepted by verify_proof on every sparse replica of the log, for every log/writer state/replica state/index; the first-contact upgrade (the writer's answer to 'upgrade from 0 to your length' = its reference roots + signature, accepted by a replica that knows nothing yet, which adopts exactly the writer's roots, length and fork: honest_first_upgrade_accepted); the exchange is closed under its own effects at tree level (sync_first_contact, sync_invariant, sync_progress: after first contact and any number of block exchanges in any order, each answered by create_valueless_proof, checked by verify_proof and committed, the replica is again a sparse replica at the writer's length with the writer's roots and fork, and the exchange for every block succeeds again - it never gets stuck); at CORE level (replica_converges): from a replica that knows nothing, the writer's upgrade answer and then its block answers for any list of indices in any order with repetitions are each applied by verify_and_apply_proof with answer true - verification, byte offset under the replica's own sparse tree, data write, oplog entry, bitfield, tree commit, periodic flush - and afterwards the replica reports the writer's length and byte length, every fetched block reads back byte-identical to the writer's block and every other index reads as not held (invariant Replica.RepR with a closed sparse tree); the same with GROWTH ROUNDS (replica_grows): after first contact at any length the replica plays any list of acts - upgrade to the writer's current, larger length (the answer is the greedy decomposition of [m,n) into aligned blocks; inside the first new root verify_upgrade's grow loop merges upwards like a binary counter) fetch block i below its current length, and ask for the hash of any full tree node inside its current length, in any order - every act is answered true and at the end it reports the last length and byte length and serves exactly the fetched blocks byte-identical; once verified and commitable a proof is always applied, with exactly the prescribed events. ACROSS RESTARTS, from creation (replica_reopens): the replica is created by Hypercore::new over empty stores from the public key alone, and among the acts the stores may be closed and reopened (Hypercore::new without key pair) any number of times - every reopen succeeds without writing, replays the oplog entries since the last flush to exactly the live header, tree and bitfield (ghost invariant ReplicaReopen.PersistR next to RepRAt; truncate finds the upgraded roots among the entry's nodes and the store), and the final statement is the same. The proofs used are the writer's own answers (honest_block_is_writers, honest_hash_is_writers, honest_growth_is_writers, honest_blockgrowth_is_writers). Not proved (validated by the run): proofs with seek sections, upgrades to less than the writer's length (additional nodes); (block+upgrade in one proof is proved for EVERY block: new_block_with_upgrade_applied - a block m <= i < n of the new part: the block's subtree root is one node of the honest position list, left out of the upgrade section, recomputed by the block climb and taken from verify_upgrade's extra slot exactly when its turn comes (honest_new_block_with_upgrade_accepted); the byte offset is computed under the changeset's node list - the block's path followed by the upgrade's nodes - and its new roots (offset_new_block); for a block below the replica's length together with an upgrade, honest_block_with_upgrade_accepted proves acceptance by verify_proof and block_with_upgrade_applied the whole application at core level: byte offset computed under the merged roots, data write, the single entry carrying nodes+upgrade+bitfield, commit, replay of that entry on reopen, the invariants again) - a block the writer does not hold (cleared) yields no proof, never a wrong one, and a created block proof carries exactly what get returns (cleared_block_no_proof, created_block_value) - every honest proof in every request order, partial upgrades, seeks, hash sweeps, replica reopen, cleared blocks must be accepted by crate and model and the replica must converge",
         rule="writer histories (appends, batches, clears, reopen) x replica request orders {block i with nodes from missing_nodes, hash of a tree node, seek, upgrade to any length in (replica, writer]} incl. partial upgrades with additional nodes, several growth rounds, replica reopen; create_proof output (every node, size, hash, signature), acceptance, journals and probes compared with the Lean model; oracle: accepted, replica bytes = writer bytes, length = writer's length at the upgrade. distinct = distinct transcripts",
         trusted=REPL_TRUSTED,
     ),
@@ -242,15 +242,15 @@ PROPS = {
     "C02": dict(
         theorems=["HC.C02.crash_refinement", "HC.C02.crash_refinement_from", "HC.C02.crash_atomic", "HC.C02.crash_then_continue", "HC.C02.acknowledged_stays", "HC.C02.history_invariants_reopen",
                   "HC.C02.reopen_exact", "HC.C02.append_commit", "HC.C02.flush_atomic", "HC.C02.fresh", "HC.C02.reachable", "HC.C02.crash_atomic_partial",
-                  "HC.C02.replica_crash_atomic", "HC.C02.replica_first_crash_atomic", "HC.C02.replica_blockgrow_crash_atomic", "HC.C02.replica_nextblock_crash_atomic", "HC.C02.replica_survives_crashes"],
+                  "HC.C02.replica_crash_atomic", "HC.C02.replica_first_crash_atomic", "HC.C02.replica_blockgrow_crash_atomic", "HC.C02.replica_newblock_crash_atomic", "HC.C02.replica_survives_crashes"],
         bridge_modules=["HC.Bridge.Oplog", "HC.Bridge.Stores", "HC.Bridge.Order"], bridging=OPLOG_BRIDGE + STORES_BRIDGE + ORDER_BRIDGE,
         runs=_c02_runs,
-        partial="proved on the model (crash_atomic): after any history of calls and reopen steps of a writer core, for any further append_batch/clear/make_read_only/read and ANY prefix of its storage operations, Hypercore::new on the stores succeeds and the recovered core represents the log before the call or the log after it (length, byte length, has, get, exact contiguous length, writability), stays usable (crash_then_continue), and acknowledged calls stay applied (acknowledged_stays); crash points inside a flush (bitfield pages / tree nodes partly written, header written but entries not yet truncated) are inside the theorem. crash_refinement: histories in which calls complete, the store is closed and reopened, or the process dies after any number of storage operations of a call and the store is reopened, any number of times in any order, are observationally the abstract log in which each crash leaves the log before or after the interrupted call (recovery re-establishes the ghost invariant; Oplog::open cuts off stale entries - repo fix a6a0579). PROOF APPLICATIONS ON A REPLICA (replica_crash_atomic, replica_survives_crashes): for every replica state reached from creation (public key only) by first contact, honest upgrade/block/hash exchanges, close/reopen steps and earlier crashes (first contact included: replica_first_crash_atomic), every honest act and ANY prefix of the storage operations of its application (data write, oplog entry, and when the periodic flush is due bitfield pages, tree nodes, header, truncation), Hypercore::new succeeds and the replica shows exactly the state before the application or the state after it (length, byte length, has, get of every index, exact contiguous length) and satisfies the invariants again, so crashes can repeat without bound - the data write precedes the entry (a held bit never lacks its bytes), a bitfield store ahead of the header is tolerated because the replica's entries only set bits and the replayed hint is never stuck on a held bit (bitRun_exact), a tree store ahead of the header only gained reference nodes (replay_ext). A proof that carries a block below the replica's length AND an upgrade is one atomic step as well (replica_blockgrow_crash_atomic: never the upgrade without the block or the block without the upgrade; such steps and crashes inside them are steps of Reach). The next block + upgrade (block m on a replica of length m) is an atomic step too (replica_nextblock_crash_atomic; a step of Reach). Not proved (validated by reopening every journal prefix on the real crate and on the model, including repeated crashes): block+upgrade where the block lies in the new part beyond the first new block, replica-side clears; same hypotheses as C01.full_refinement.",
+        partial="proved on the model (crash_atomic): after any history of calls and reopen steps of a writer core, for any further append_batch/clear/make_read_only/read and ANY prefix of its storage operations, Hypercore::new on the stores succeeds and the recovered core represents the log before the call or the log after it (length, byte length, has, get, exact contiguous length, writability), stays usable (crash_then_continue), and acknowledged calls stay applied (acknowledged_stays); crash points inside a flush (bitfield pages / tree nodes partly written, header written but entries not yet truncated) are inside the theorem. crash_refinement: histories in which calls complete, the store is closed and reopened, or the process dies after any number of storage operations of a call and the store is reopened, any number of times in any order, are observationally the abstract log in which each crash leaves the log before or after the interrupted call (recovery re-establishes the ghost invariant; Oplog::open cuts off stale entries - repo fix a6a0579). PROOF APPLICATIONS ON A REPLICA (replica_crash_atomic, replica_survives_crashes): for every replica state reached from creation (public key only) by first contact, honest upgrade/block/hash exchanges, close/reopen steps and earlier crashes (first contact included: replica_first_crash_atomic), every honest act and ANY prefix of the storage operations of its application (data write, oplog entry, and when the periodic flush is due bitfield pages, tree nodes, header, truncation), Hypercore::new succeeds and the replica shows exactly the state before the application or the state after it (length, byte length, has, get of every index, exact contiguous length) and satisfies the invariants again, so crashes can repeat without bound - the data write precedes the entry (a held bit never lacks its bytes), a bitfield store ahead of the header is tolerated because the replica's entries only set bits and the replayed hint is never stuck on a held bit (bitRun_exact), a tree store ahead of the header only gained reference nodes (replay_ext). A proof that carries a block below the replica's length AND an upgrade is one atomic step as well (replica_blockgrow_crash_atomic: never the upgrade without the block or the block without the upgrade; such steps and crashes inside them are steps of Reach). A block of the new part + upgrade is an atomic step too (replica_newblock_crash_atomic; a step of Reach). Not proved (validated by reopening every journal prefix on the real crate and on the model, including repeated crashes): replica-side clears, proofs with seek sections or additional nodes; same hypotheses as C01.full_refinement.",
         rule="for every history, after every mutating call, the storage is rebuilt from every prefix of that call's journal of write/delete/truncate operations, reopened with open(true), probed, and compared with the list model's before and after states and with the Lean model's prediction; some recovered cores are continued, and 'double' histories crash again inside the next call (make_read_only, append, batch, clear) on the recovered core, preferring the windows inside a flush. distinct = distinct transcripts",
         trusted=LOG_TRUSTED, assumptions=["each storage operation is atomic and persisted in issue order"],
     ),
     "C07": dict(
-        theorems=["HC.C07.torn_atomic", "HC.C07.torn_atomic_from", "HC.C07.torn_then_continue", "HC.C07.torn_entry_ignored", "HC.C07.readEntries_stops", "HC.C07.torn_header_falls_back", "HC.C07.replica_torn_commit_point_partial", "HC.C07.replica_torn_header", "HC.C07.replica_blockgrow_torn_commit_point", "HC.C07.replica_torn_flush", "HC.C07.replica_torn_flush_first", "HC.C07.replica_torn_flush_blockgrow", "HC.C07.torn_flush_of_ok", "HC.C07.torn_header_of_ok", "HC.C07.torn_commit_of_ok", "HC.C07.replica_first_torn", "HC.C07.replica_blockgrow_torn_header", "HC.C07.replica_nextblock_torn"],
+        theorems=["HC.C07.torn_atomic", "HC.C07.torn_atomic_from", "HC.C07.torn_then_continue", "HC.C07.torn_entry_ignored", "HC.C07.readEntries_stops", "HC.C07.torn_header_falls_back", "HC.C07.replica_torn_commit_point_partial", "HC.C07.replica_torn_header", "HC.C07.replica_blockgrow_torn_commit_point", "HC.C07.replica_torn_flush", "HC.C07.replica_torn_flush_first", "HC.C07.replica_torn_flush_blockgrow", "HC.C07.torn_flush_of_ok", "HC.C07.torn_header_of_ok", "HC.C07.torn_commit_of_ok", "HC.C07.replica_first_torn", "HC.C07.replica_blockgrow_torn_header", "HC.C07.replica_newblock_torn"],
         bridge_modules=["HC.Bridge.Oplog", "HC.Bridge.Order"], bridging=OPLOG_BRIDGE + ORDER_BRIDGE,
         runs=_c07_runs,
         partial="proved on the model (torn_atomic): after any history of calls and reopen steps of a writer core, for any further append_batch/clear/make_read_only/read, any storage operation k of it and any number t of bytes of that write that arrive, Hypercore::new succeeds and the recovered core represents the log before or after the call and stays usable; torn data, bitfield-page, tree-node and log-entry writes need no assumption, a torn header write assumes that the checksum rejects the half-written slot (CrcDetects, evaluated by the harness on every torn state it generates). On a replica (replica_torn_commit_point_partial): a torn write of the block's bytes or of the oplog entry of any honest proof application recovers to exactly the state before the application (the entry write is the commit point; no checksum assumption); a torn header write of the replica's periodic flush (all pages and nodes written; CrcDetects assumed) recovers to the state after the application (replica_torn_header). The same for first contact (replica_first_torn) and for block+upgrade proofs (replica_blockgrow_torn_commit_point, replica_blockgrow_torn_header); torn_commit_of_ok / torn_header_of_ok / torn_flush_of_ok state all three for every exchange step. Torn page and node writes inside the periodic flush of a replica (replica_torn_flush, replica_torn_flush_first, replica_torn_flush_blockgrow): if the k-th dirty page or (all pages written) the k-th unflushed node reaches its store only as a byte prefix, Hypercore::new succeeds and shows the replica exactly as the completed application leaves it (length, byte length, every held block byte-identical, has, exact contiguous length) - a half-written page holds bit by bit the old or the new value, which the replay of the old header's entries tolerates; a half-written node is one the replayed entries re-insert into the unflushed map, which shadows the store. Not proved (run only): that the ghost invariant for FURTHER crashes holds again after such a recovery (the stores are then not whole pages / whole slots until rewritten: the store's size is not a multiple of the page / node size).",
